@@ -430,7 +430,7 @@ def tasks(tier, seed=0):
     t = [("c07", "run_sub", (k,), dict(tier=tier, seed=seed, canary=(k == "so3"))) for k in MS]
     t.append(("c07", "run_any", (), dict(tier=tier, seed=seed)))
     t.append(("c07", "run_variant", (), dict(tier=tier, seed=seed)))
-    for g in (["SO2", "SO3", "SE2"] if tier == "quick" else ["SO2", "SO3", "SE2", "SE3", "C1"]):
+    for g in (["SO2", "SO3", "SE2", "C1"] if tier == "quick" else ["SO2", "SO3", "SE2", "SE3", "C1"]):
         t.append(("c07", "run_axioms", (g,), dict(tier=tier, seed=seed)))
     return t
 
